@@ -32,6 +32,31 @@
 (*                              processor delivers it verbatim (REPT,      *)
 (*                              WHILE: REPT_/WHILE_OutProcessor store the  *)
 (*                              raw line).                                 *)
+(*   SY  symbol table           INSTANCE Symbols (C13): the trees          *)
+(*                              FirstSymbol / FirstLocSymbol as functions  *)
+(*                              <<name, section or local handle>> ->       *)
+(*                              [val, chg, def], the section list and      *)
+(*                              stack, the PUBLIC/GLOBAL/FORWARD lists,    *)
+(*                              the PUSHV/POPV stacks.  Adder, EnterSymbol,*)
+(*                              DoSection, DoEndSection, DoPP, FindNode,   *)
+(*                              DoPushV, DoPopV, ExitPass, NextPass are    *)
+(*                              the operators of Symbols.tla, unchanged.   *)
+(*                              Names are the stored (case-folded) names   *)
+(*                              of the hook records; a value is the triple *)
+(*                              <<type, integer, decimal text of integers  *)
+(*                              beyond 2^30>> (values of other types are   *)
+(*                              compared by type only - that is what the   *)
+(*                              hook records).  The local symbol handles   *)
+(*                              (MomLocHandle, LocHandleCnt) are carried   *)
+(*                              by the tags of MP: lh, gs, mp.lc.          *)
+(*                              NOT composed: expression evaluation (the   *)
+(*                              value of a definition is the recorded one; *)
+(*                              what is judged is where it goes, whether   *)
+(*                              it may go there, what it does to the table *)
+(*                              and that every later read sees it), the    *)
+(*                              spelling rules of temporary / composed     *)
+(*                              names and the search path of a reference   *)
+(*                              (C13 judges both).                         *)
 (*                                                                         *)
 (* This module holds the pure operators and the cross-machine claims; the  *)
 (* wrappers are AsCore_Trace (one recorded execution of the real assembler *)
@@ -61,13 +86,71 @@
 (*                            statement = length of the machine's chain    *)
 (*   LabelValueIsExec         a constant label gets AddrBook's execution   *)
 (*                            address as it is BEFORE the statement        *)
+(*   LabelEntersTable         a label field that is not the operand of the *)
+(*                            statement is entered: exactly one constant,  *)
+(*                            its name, in the current section (in the     *)
+(*                            local space of the innermost expansion that  *)
+(*                            opened one), first definition of the line    *)
+(*   SymbolTableFollowsAdder  every recorded definition is what            *)
+(*                            EnterSymbol / EnterLocSymbol + SymbolAdder   *)
+(*                            do to the table of the specification: place  *)
+(*                            (section, PUBLIC / GLOBAL target, local      *)
+(*                            handle) and outcome new / same / changed /   *)
+(*                            redef_* / double / mix.  This is the rule    *)
+(*                            "EQU, = and labels may not be redefined      *)
+(*                            within a pass (whatever the value), SET, :=, *)
+(*                            EVAL may; across passes the same value is    *)
+(*                            silent".                                     *)
+(*   ConstantIsStable         the same, declaratively: a definition never  *)
+(*                            alters an entry that is a constant defined   *)
+(*                            in this pass                                 *)
+(*   RedefinitionIsReported   outcome double / mix <=> message 1000 /      *)
+(*                            2030, 2035 on the line                       *)
+(*   DefKindMatchesStatement  EQU / = define constants, SET / := / EVAL    *)
+(*                            variables, ENUM constants                    *)
+(*   ErrorDefinesNothing      a definition statement (EQU, SET, ...) that  *)
+(*                            raised an error leaves the table as it was   *)
+(*   RefReadsTable            every recorded lookup that found an entry    *)
+(*                            shows the value, kind and defined-mark the   *)
+(*                            table of the specification holds for it      *)
+(*   SectionStackFollowsManual SECTION / ENDSECTION / PUBLIC / GLOBAL /    *)
+(*                            FORWARD are DoSection / DoEndSection / DoPP; *)
+(*                            their errors are reported with their number; *)
+(*                            the depth of the stack is the recorded one   *)
+(*                            after EVERY statement                        *)
+(*   EnumAssignsSequentialValues  ENUM starts at 0, NEXTENUM continues,    *)
+(*                            name=value restarts, step = ENUMCONF         *)
+(*   StackIsLifo              PUSHV / POPV are DoPushV / DoPopV (the value *)
+(*                            popped is read back by later references)     *)
+(*   FinalTableIsListed       (AsCore_Trace, FILEEND) the symbol table of  *)
+(*                            the listing = the global tree at the end of  *)
+(*                            the last pass (generated programs: -L)       *)
 (*   LastPassImageEqualsFile  in the last pass every emitted byte is the   *)
 (*                            next byte of the code file, at its address;  *)
 (*                            at the end nothing is left in the file       *)
 (*   PassBoundaryResetsEverything  (AsCore_Trace: Driver_Trace's Pass)     *)
 (*   OpenConstructsAreReported  at the end of a pass an open IF / SAVE /   *)
-(*                            STRUCT is reported (1470 / 1460 / 1551) and  *)
-(*                            nothing else is                              *)
+(*                            STRUCT / SECTION is reported (1470 / 1460 /  *)
+(*                            1551 / 1485), a PUSHV stack that is not      *)
+(*                            empty is warned about (230), nothing else is *)
+(* SkippedIsInert / RecordedIsInert include the symbol table: no           *)
+(* definition, no modification, table after = table before.                *)
+(* Named behaviour of the code the manual does not state:                  *)
+(*   LabelSurvivesError       the label of a line whose instruction fails  *)
+(*                            stays defined (LabelHandle runs first)       *)
+(*   EnumLocalInExpansion     ENUM inside a macro body defines macro-local *)
+(*                            constants (CodeENUM has no PushLocHandle(-1))*)
+(*                            while EQU / LABEL / SET define global ones   *)
+(*   RedefinitionEvenIfEqual  x EQU 1 / x EQU 1 in one pass is an error    *)
+(*   QuietUnknownEqu          x EQU <forward reference> in pass 1 defines  *)
+(*                            nothing and says nothing                     *)
+(*   LabelErrorStillEmits     a label that is refused (double definition)  *)
+(*                            does not stop the instruction behind it      *)
+(*   OpFieldExpandedAnyway    {symbol} in the opcode field is looked up    *)
+(*                            even on a skipped or recorded line           *)
+(*   SetIsInstruction         SET bit,operand on targets that have it      *)
+(*   ResetAt                  ResetSymbolDefines runs in front of the      *)
+(*                            first definition of TRUE (hook: no marker)   *)
 (* VARIABLE l = position of the current statement in the record of         *)
 (* statements (the wrappers step it); bodies of macros and loops are       *)
 (* ranges of such positions.                                               *)
@@ -86,6 +169,7 @@ AB == INSTANCE AddrBook
 DG == INSTANCE Diag WITH Wrap <- 0
 MP == INSTANCE MacroProc WITH Fixed <- {}, HasAttrs <- TRUE, MaxNum <- 0
 CW == INSTANCE CodeWriter_Trace WITH l <- 0, base <- 0, ri <- 0, off <- 0
+SY == INSTANCE Symbols WITH LOCSYMSIGHT <- 3
 
 On(c) == ~(l = OffAt /\ c \in OffSet)
 Claim(c, p) == ~On(c) \/ p
@@ -217,62 +301,81 @@ Reset(e) == [AB!InitB(e.seg) EXCEPT !.pc[e.seg] = e.pc, !.used = [s \in AB!AllSe
 
 -----------------------------------------------------------------------------
 (* 4. MP: the macro processor, projected                                   *)
-\* input tag  [kind, mac, ifl, s, n, z, raw, known, emp]   (TInputTag: Processor, IsMacro, IfLevel, Lines as the
-\*            range s..s+n-1 of recorded statements, LineZ, "lines are delivered verbatim", "body known", IsEmpty)
-\* output tag [kind, nest, s, n, ifl, name]                (TOutputTag: Processor, NestLevel, recorded range)
-\* mp = [tags, outs, macros, pass];  macros: name -> [s, n]
+\* input tag  [kind, mac, ifl, s, n, z, raw, known, emp, gs, lh]   (TInputTag: Processor, IsMacro, IfLevel, Lines as the
+\*            range s..s+n-1 of recorded statements, LineZ, "lines are delivered verbatim", "body known", IsEmpty,
+\*            GlobalSymbols, the local symbol handle the tag has pushed: -1 = none)
+\* output tag [kind, nest, s, n, ifl, name, gs]            (TOutputTag: Processor, NestLevel, recorded range, options)
+\* mp = [tags, outs, macros, pass, lc];  macros: name -> [s, n, gs];  lc = LocHandleCnt
 FileTag(ifl) == [kind |-> "FILE", mac |-> FALSE, ifl |-> ifl, s |-> 0, n |-> 0, z |-> 1, raw |-> FALSE,
-                 known |-> FALSE, emp |-> FALSE]
-InitMP == [tags |-> <<>>, outs |-> <<>>, macros |-> <<>>, pass |-> 0]
+                 known |-> FALSE, emp |-> FALSE, gs |-> TRUE, lh |-> -1]
+InitMP == [tags |-> <<>>, outs |-> <<>>, macros |-> <<>>, pass |-> 0, lc |-> 0]
 \* AssembleFile_InitPass + ProcessFile: chains empty, the main file is the only input tag; macros of pass 1 stay
-StartPass(mp, pass) == [mp EXCEPT !.tags = <<FileTag(0)>>, !.outs = <<>>, !.pass = pass]
+StartPass(mp, pass) == [mp EXCEPT !.tags = <<FileTag(0)>>, !.outs = <<>>, !.pass = pass, !.lc = 0]
 
 RECURSIVE PopEmpty(_)
 PopEmpty(tags) == IF tags # <<>> /\ Head(tags).emp THEN PopEmpty(Tail(tags)) ELSE tags
 SetTop(tags, t) == <<t>> \o Tail(tags)
 LoopKinds == {"IRP", "IRPN", "IRPC", "REPT"}
 
+\* MACRO_/IRP_/IRPC_/REPT_/WHILE_Processor, "before the first line, start a new local symbol space": a tag without
+\* GlobalSymbols gets the next handle (GetLocHandle() = LocHandleCnt++) when its line 1 is delivered - a loop at line 1
+\* of every iteration (the handle of the iteration before is dropped), WHILE before it evaluates its condition.  The
+\* Restorer drops the handle with the tag.
+OpensSpace(t) == t.kind # "FILE" /\ t.known /\ ~t.gs /\ t.z = 1
+Opened(t, lc) == IF OpensSpace(t) THEN [t EXCEPT !.lh = lc] ELSE t
+\* MomLocHandle and the chain FindLocNode walks: the handles of the open tags, innermost first
+RECURSIVE LocChain(_)
+LocChain(tags) == IF tags = <<>> THEN <<>>
+                  ELSE (IF Head(tags).lh >= 0 THEN <<Head(tags).lh>> ELSE <<>>) \o LocChain(Tail(tags))
+MomLoc(tags) == LET c == LocChain(tags) IN IF c = <<>> THEN -1 ELSE c[1]
+
 \* GetNextLine for one delivered line ln = [nl, tx, dp, em]; Tx(i) = text of the statement recorded at position i.
-\* Returns the set (empty or singleton) of chains after the call.
+\* tl = [tags, lc].  Returns the set (empty or singleton) of [tags, lc] after the call.
 DeliveredAsRecorded(Tx(_), t, ln) ==
   Claim("DeliveredAsRecorded", (t.raw /\ t.known) => ln.tx = Tx(t.s + t.z - 1))
-NextLine(Tx(_), tags0, ln) ==
-  LET tags == PopEmpty(tags0)
-  IN IF ln.nl THEN (IF tags = <<>> THEN {tags} ELSE {})            \* the hook is behind the early return
+NextLine(Tx(_), tl, ln) ==
+  LET tags == PopEmpty(tl.tags)
+      R(ts, c) == [tags |-> ts, lc |-> c]
+  IN IF ln.nl THEN (IF tags = <<>> THEN {R(tags, tl.lc)} ELSE {})    \* the hook is behind the early return
      ELSE IF tags = <<>> \/ ~Claim("TagDepthIsMachineDepth", ln.dp = Len(tags)) THEN {}
-     ELSE LET t == Head(tags) IN
-          CASE t.kind = "FILE" \/ ~t.known -> {SetTop(tags, [t EXCEPT !.emp = ln.em])}      \* text and end: input
+     ELSE LET t0 == Head(tags)
+              t  == Opened(t0, tl.lc)
+              lc == IF OpensSpace(t0) THEN tl.lc + 1 ELSE tl.lc
+          IN
+          CASE t.kind = "FILE" \/ ~t.known -> {R(SetTop(tags, [t EXCEPT !.emp = ln.em]), lc)}   \* text and end: input
             [] t.kind = "MACRO" ->                                  \* MACRO_Processor: exhausted with the last line
                  IF t.z <= t.n /\ ln.em = (t.z + 1 > t.n) /\ DeliveredAsRecorded(Tx, t, ln)
-                 THEN {SetTop(tags, [t EXCEPT !.z = @ + 1, !.emp = ln.em])} ELSE {}
+                 THEN {R(SetTop(tags, [t EXCEPT !.z = @ + 1, !.emp = ln.em]), lc)} ELSE {}
             [] t.kind \in LoopKinds ->                              \* IRP_/IRPC_/REPT_Processor: the count ends
                  IF t.z <= t.n /\ (ln.em => t.z = t.n) /\ DeliveredAsRecorded(Tx, t, ln)     \* only with the body
-                 THEN {SetTop(tags, [t EXCEPT !.z = IF t.z = t.n THEN 1 ELSE @ + 1, !.emp = ln.em])} ELSE {}
+                 THEN {R(SetTop(tags, [t EXCEPT !.z = IF t.z = t.n THEN 1 ELSE @ + 1, !.emp = ln.em]), lc)} ELSE {}
             [] OTHER ->                                             \* WHILE_Processor: condition before line 1
-                 IF t.z = 1 /\ ln.em THEN (IF ln.tx = 0 THEN {SetTop(tags, [t EXCEPT !.emp = TRUE])} ELSE {})
+                 IF t.z = 1 /\ ln.em THEN (IF ln.tx = 0 THEN {R(SetTop(tags, [t EXCEPT !.emp = TRUE]), lc)} ELSE {})
                  ELSE IF ~ln.em /\ t.z <= t.n /\ DeliveredAsRecorded(Tx, t, ln)
-                      THEN {SetTop(tags, [t EXCEPT !.z = IF t.z = t.n THEN 1 ELSE @ + 1])} ELSE {}
+                      THEN {R(SetTop(tags, [t EXCEPT !.z = IF t.z = t.n THEN 1 ELSE @ + 1]), lc)} ELSE {}
 RECURSIVE Deliver(_, _, _, _)
-Deliver(Tx(_), tags, lns, i) ==
-  IF i > Len(lns) THEN {tags}
-  ELSE UNION {Deliver(Tx, t2, lns, i + 1) : t2 \in NextLine(Tx, tags, lns[i])}
+Deliver(Tx(_), tl, lns, i) ==
+  IF i > Len(lns) THEN {tl}
+  ELSE UNION {Deliver(Tx, t2, lns, i + 1) : t2 \in NextLine(Tx, tl, lns[i])}
 
 \* Produce_Code, statements of the macro processor.  pos = position of this statement in the record of statements,
 \* ifpre = IfAsm before the statement, ifl = depth of the IF stack (SaveIFs), quiet = no error on this line
-WaitOut == [kind |-> "WAIT", nest |-> 0, s |-> 0, n |-> 0, ifl |-> 0, name |-> ""]
-NewOut(kind, pos, ifl, name) == [kind |-> kind, nest |-> 0, s |-> pos + 1, n |-> 0, ifl |-> ifl, name |-> name]
+WaitOut == [kind |-> "WAIT", nest |-> 0, s |-> 0, n |-> 0, ifl |-> 0, name |-> "", gs |-> FALSE]
+NewOut(kind, pos, ifl, name, gs) ==
+  [kind |-> kind, nest |-> 0, s |-> pos + 1, n |-> 0, ifl |-> ifl, name |-> name, gs |-> gs]
 PushOut(mp, o) == [mp EXCEPT !.outs = <<o>> \o @]
 PushTag(mp, t) == [mp EXCEPT !.tags = <<t>> \o @]
 BodyTag(kind, o) == [kind |-> kind, mac |-> TRUE, ifl |-> o.ifl, s |-> o.s, n |-> o.n, z |-> 1,
-                     raw |-> kind \in {"REPT", "WHILE"}, known |-> TRUE, emp |-> o.n = 0]
+                     raw |-> kind \in {"REPT", "WHILE"}, known |-> TRUE, emp |-> o.n = 0, gs |-> o.gs, lh |-> -1]
 MacroTag(mp, name, ifl) ==
   IF name \in DOMAIN mp.macros
   THEN [kind |-> "MACRO", mac |-> TRUE, ifl |-> ifl, s |-> mp.macros[name].s, n |-> mp.macros[name].n, z |-> 1,
-        raw |-> FALSE, known |-> TRUE, emp |-> mp.macros[name].n = 0]
+        raw |-> FALSE, known |-> TRUE, emp |-> mp.macros[name].n = 0, gs |-> mp.macros[name].gs, lh |-> -1]
   ELSE [kind |-> "MACRO", mac |-> TRUE, ifl |-> ifl, s |-> 0, n |-> 0, z |-> 1, raw |-> FALSE, known |-> FALSE,
-        emp |-> FALSE]                   \* a macro the specification has not seen defined: opaque
+        emp |-> FALSE, gs |-> TRUE, lh |-> -1]  \* a macro the specification has not seen defined: opaque
 DefMacro(mp, name, o) ==
-  [mp EXCEPT !.macros = [x \in DOMAIN mp.macros \cup {name} |-> IF x = name THEN [s |-> o.s, n |-> o.n] ELSE mp.macros[x]]]
+  [mp EXCEPT !.macros = [x \in DOMAIN mp.macros \cup {name} |->
+                           IF x = name THEN [s |-> o.s, n |-> o.n, gs |-> o.gs] ELSE mp.macros[x]]]
 Rejected(mp, quiet) == IF quiet /\ On("RejectedHeaderNeedsError") THEN {} ELSE {PushOut(mp, WaitOut)}
 
 Produce(mp, e, pos, ifpre, ifl, quiet) ==
@@ -288,10 +391,10 @@ Produce(mp, e, pos, ifpre, ifl, quiet) ==
                                         IF ifpre THEN {rest, PushTag(rest, BodyTag(o.kind, o))} ELSE {rest}
   ELSE CASE e.mc \in LoopKinds \cup {"WHILE"} ->
               IF ~ifpre THEN {PushOut(mp, WaitOut)}
-              ELSE {PushOut(mp, NewOut(e.mc, pos, ifl, ""))} \cup Rejected(mp, quiet)
+              ELSE {PushOut(mp, NewOut(e.mc, pos, ifl, "", e.gsym))} \cup Rejected(mp, quiet)
          [] e.mc = "MACRO" ->
               IF mp.pass # 1 THEN {PushOut(mp, WaitOut)}             \* definitions are only taken in pass 1
-              ELSE {PushOut(mp, NewOut("MACRO", pos, ifl, e.nm))} \cup Rejected(mp, quiet)
+              ELSE {PushOut(mp, NewOut("MACRO", pos, ifl, e.nm, e.gsym))} \cup Rejected(mp, quiet)
          [] e.mc = "EXITM" ->
               IF e.argc = 0 /\ mp.tags # <<>> /\ Head(mp.tags).mac /\ ifpre
               THEN {[mp EXCEPT !.tags = SetTop(@, [Head(@) EXCEPT !.emp = TRUE])]} ELSE {mp}
@@ -302,33 +405,235 @@ Produce(mp, e, pos, ifpre, ifl, quiet) ==
          [] OTHER -> {mp}
 
 -----------------------------------------------------------------------------
+(* 4b. SY: the symbol table                                                *)
+\* sy = a state of Symbols.tla (InitS): tab, loc, sects, mom, stk, stacks, pass ...; en = [cur, kc, inc, ki]: ENUM's
+\* counter and increment with "value known to the specification" marks (an explicit value beyond 2^30, an ENUMCONF
+\* argument that is not a literal and a failed ENUM make them unknown: nothing is claimed until they are set again).
+\* A record of e.sy (sym_def / sym_mod / sym_ref of the statement, in order):
+\*   [k "def"|"mod"|"ref", name, sect, t (TempType: 1 = integer), v, x, chg, out]
+InitSY == SY!InitS(TRUE, {})              \* names arrive case-folded (tokeniser): Fold is the identity
+InitEN == [cur |-> 0, kc |-> TRUE, inc |-> 1, ki |-> TRUE]
+Quiesce(sy) == [sy EXCEPT !.errs = 0, !.ekinds = {}, !.obs = <<>>, !.repass = FALSE, !.warns = 0]
+\* AssembleFile_InitPass: ResetSymbolDefines, the section stack, the PUSHV stacks, ENUM's state
+SyStartPass(sy, pass) == Quiesce([SY!NextPass(sy) EXCEPT !.pass = pass])
+
+Val(o) == <<o.t, o.v, o.x>>
+\* an entry patched by ChangeSymbol (LabelModify: XA, padding) keeps the entered value for the comparison in
+\* SymbolAdder (EnteredInt) and shows the patched one to references
+Cur(en) == IF "cur" \in DOMAIN en THEN en.cur ELSE en.val
+PathHandles(sy) == {sy.mom, SY!GLOB} \cup {sy.stk[k].h : k \in 1..Len(sy.stk)}
+InChain(h, ch) == \E k \in 1..Len(ch) : ch[k] = h
+Defs(rs) == SelectSeq(rs, LAMBDA o : o.k = "def")
+Writes(rs) == SelectSeq(rs, LAMBDA o : o.k # "ref")
+
+SameObs(m, o) == m.name = o.name /\ m.sect = o.sect /\ m.val = Val(o) /\ m.chg = o.chg /\ m.out = o.out
+\* ConstantIsStable, declaratively ("EQU defines constants which can not be modified again"): what a definition
+\* leaves of an entry that was a constant defined in this pass is that entry.  Evaluated at the keys the records
+\* name (SymbolAdder touches no other entry; the bounded model AsCore_MC checks the same over the whole table as
+\* the invariant ConstantsKeepTheirValue).
+Stable(f, g, k) == (k \in DOMAIN f /\ f[k].def /\ ~f[k].chg) => g[k] = f[k]
+ConstantIsStable(sy, n, rs, i, used) ==
+  Claim("ConstantIsStable", \A j \in i..(i + used - 1) :
+                              LET k == <<rs[j].name, rs[j].sect>> IN Stable(sy.tab, n.tab, k) /\ Stable(sy.loc, n.loc, k))
+
+\* the record at i (and, for a GLOBAL export, the one behind it) is what EnterSymbol does: <<ok, sy, records used>>
+DefGlobal(sy0, rs, i, c) ==
+  LET o  == rs[i]
+      n1 == SY!EnterSymbol(sy0, o.name, Val(o), o.chg, SY!NOSECT)
+      p  == rs[i + 1]
+      n2 == SY!EnterSymbol(sy0, p.name, Val(p), p.chg, SY!NOSECT)
+      n3 == SY!EnterSymbol(sy0, o.name, Val(o), o.chg, o.sect)
+  IN IF Len(n1.obs) = 1 /\ SameObs(n1.obs[1], o) THEN <<TRUE, n1, 1>>
+     ELSE IF i < Len(rs) /\ rs[i + 1].k = "def" /\ Len(n2.obs) = 2 /\ SameObs(n2.obs[1], o) /\ SameObs(n2.obs[2], p)
+          THEN <<TRUE, n2, 2>>                               \* GLOBAL: the copy SECTION_NAME first, then the symbol
+     ELSE IF c.q /\ o.sect \in PathHandles(sy0) /\ Len(n3.obs) = 1 /\ SameObs(n3.obs[1], o)
+          THEN <<TRUE, n3, 1>>                               \* name[section]: GetSymSection / IdentifySection
+     ELSE <<FALSE, sy0, 1>>
+DefLocal(sy0, o, c) ==
+  LET n == SY!Adder(sy0, "loc", <<o.name, c.ml>>, Val(o), FALSE)
+  IN <<~o.chg /\ Len(n.obs) = 1 /\ SameObs(n.obs[1], o), n>>
+\* SymbolTableFollowsAdder switched off (diagnosis): the table takes the record as it is
+RawDef(sy, o, c) ==
+  LET key == <<o.name, o.sect>>
+      ne  == [val |-> Val(o), chg |-> o.chg, def |-> TRUE]
+      put(f) == IF key \in DOMAIN f THEN [f EXCEPT ![key] = ne] ELSE f @@ (key :> ne)
+  IN IF o.out \in {"double", "mix"} THEN sy
+     ELSE IF c.ml # -1 /\ o.sect = c.ml /\ ~o.chg /\ ~c.gl THEN [sy EXCEPT !.loc = put(@)] ELSE [sy EXCEPT !.tab = put(@)]
+
+\* EnterIntSymbolWithFlags & co: (MomLocHandle == -1) || (DestHandle != -2) || MayChange -> EnterSymbol, else
+\* EnterLocSymbol.  c = [ml (MomLocHandle), ch (chain of handles), q (a "[" on the line), gl (the handler wraps its
+\* definition in PushLocHandle(-1): EQU, =, SET, :=, EVAL, LABEL), lab, lbn, lvals, vchk, struct, prs]
+\* islab: this is the definition LabelHandle makes.  <<ok, sy, records used>>
+DefEntry(sy, rs, i, c, islab) ==
+  LET o    == rs[i]
+      sy0  == [sy EXCEPT !.obs = <<>>]
+      loc1 == DefLocal(sy0, o, c)
+      glb  == DefGlobal(sy0, rs, i, c)
+      r    == IF islab /\ c.ml # -1 /\ ~c.q THEN <<loc1[1], loc1[2], 1>>              \* labels of an expansion are local
+              ELSE IF c.ml # -1 /\ o.sect = c.ml /\ ~o.chg /\ ~c.q /\ (islab \/ ~c.gl) /\ loc1[1] THEN <<TRUE, loc1[2], 1>>
+              ELSE glb
+  IN IF ~On("SymbolTableFollowsAdder") THEN <<TRUE, RawDef(sy, o, c), 1>>
+     ELSE <<r[1] /\ ConstantIsStable(sy, r[2], rs, i, r[3]), r[2], r[3]>>
+
+\* ChangeSymbol (LabelModify): the label just entered is moved; <<ok, sy>>
+ModEntry(sy, o, c) ==
+  LET key == <<o.name, o.sect>>
+      patch(en) == [val |-> en.val, chg |-> en.chg, def |-> en.def, cur |-> Val(o)]
+  IN IF InChain(o.sect, c.ch) /\ key \in DOMAIN sy.loc THEN <<sy.loc[key].def, [sy EXCEPT !.loc[key] = patch(@)]>>
+     ELSE IF key \in DOMAIN sy.tab THEN <<sy.tab[key].def, [sy EXCEPT !.tab[key] = patch(@)]>>
+     ELSE <<FALSE, sy>>
+
+\* LookupSymbol found an entry: it is an entry of the table (FindLocNode: a handle of the chain; FindNode: any section
+\* - the search path is C13's) and the record shows its value, kind and defined-mark
+RefReadsTable(sy, o, c) ==
+  Claim("RefReadsTable",
+        \/ o.out = "unknown"
+        \/ LET key == <<o.name, o.sect>>
+               M(en) == Cur(en) = Val(o) /\ en.chg = o.chg /\ en.def = (o.out = "defined")
+           IN \/ InChain(o.sect, c.ch) /\ key \in DOMAIN sy.loc /\ M(sy.loc[key])
+              \/ key \in DOMAIN sy.tab /\ M(sy.tab[key]))
+
+\* the label's definition (first definition of the line)
+LabelOK(o, c) ==
+  /\ Claim("LabelValueIsExec", (c.vchk /\ o.t = 1 /\ o.x = "" /\ ~o.chg) => o.v \in c.lvals)
+  /\ Claim("LabelEntersTable", ~o.chg /\ ((c.lbn # "" /\ ~c.struct) => o.name = c.lbn))
+
+RECURSIVE SymFold(_, _, _, _, _)
+\* <<ok, sy, number of definitions>>
+SymFold(sy, rs, i, c, nd) ==
+  IF i > Len(rs) THEN <<TRUE, sy, nd>>
+  ELSE LET o == rs[i] IN
+       CASE o.k = "ref" -> IF RefReadsTable(sy, o, c) THEN SymFold(sy, rs, i + 1, c, nd) ELSE <<FALSE, sy, nd>>
+         [] o.k = "mod" -> LET r == ModEntry(sy, o, c)
+                           IN IF r[1] THEN SymFold(r[2], rs, i + 1, c, nd) ELSE <<FALSE, sy, nd>>
+         [] OTHER       -> LET islab == c.lab /\ nd = 0
+                               r     == DefEntry(sy, rs, i, c, islab)
+                           IN IF r[1] /\ (islab => LabelOK(o, c)) THEN SymFold(r[2], rs, i + r[3], c, nd + r[3])
+                              ELSE <<FALSE, sy, nd>>
+
+\* AssembleFile_InitPass: InitPass() of the code generators enters their flags (HASFPU ...), THEN ResetSymbolDefines
+\* clears the "defined in this pass" marks, THEN the predefined symbols are entered, TRUE (FlagTrueName) first, then
+\* FALSE, CONSTPI ... MOMCPU, the -D symbols - all through SymbolAdder, recorded before pass_begin.  The hook does not
+\* mark where the reset happened: it is in front of the first definition of TRUE (read off the code).
+RECURSIVE PreFold(_, _, _)
+\* (no section is open, no expansion: EnterSymbol is SymbolAdder on the global tree at the global level)
+PreFold(sy, rs, i) ==
+  IF i > Len(rs) THEN <<TRUE, sy>>
+  ELSE LET o == rs[i]
+           n == SY!Adder([sy EXCEPT !.obs = <<>>], "tab", <<o.name, SY!GLOB>>, Val(o), o.chg)
+       IN IF ~On("SymbolTableFollowsAdder") THEN PreFold(RawDef(sy, o, [ml |-> -1, gl |-> TRUE]), rs, i + 1)
+          ELSE IF o.k = "def" /\ SameObs(n.obs[1], o) THEN PreFold(n, rs, i + 1) ELSE <<FALSE, sy>>
+ResetAt(rs) == LET T == {i \in 1..Len(rs) : rs[i].name = "TRUE"}
+               IN IF T = {} THEN 0 ELSE (CHOOSE i \in T : \A j \in T : i <= j) - 1
+Predefine(sy, pass, rs) ==
+  LET k == ResetAt(rs)
+      a == PreFold(sy, SubSeq(rs, 1, k), 1)
+      b == PreFold(SyStartPass(a[2], pass), SubSeq(rs, k + 1, Len(rs)), 1)
+  IN <<a[1] /\ b[1], b[2]>>
+
+\* ---- statements of the symbol table ---------------------------------------------------------------------------
+KindNum(k) == CASE k = "DoubleSection" -> 1483 [] k = "InvSection" -> 1484 [] k = "WrongEndSect" -> 1486
+                [] k = "NotInSection" -> 1487 [] k = "UndefdForward" -> 1488 [] k = "ContForward" -> 1489
+                [] k = "SymbolUndef" -> 1010 [] k = "StackEmpty" -> 1530 [] k = "PopVConstant" -> 2030 [] OTHER -> 0
+Reported(n, gs) == \A k \in n.ekinds : KindNum(k) = 0 \/ HasDiag(gs, KindNum(k))
+
+RECURSIVE PPFold(_, _, _, _)
+PPFold(sy, kind, as, k) ==
+  IF k > Len(as) THEN sy ELSE PPFold(SY!DoPP(sy, kind, SY!N(as[k].n), as[k].q), kind, as, k + 1)
+RECURSIVE StackFold(_, _, _, _, _)
+StackFold(sy, pop, st, as, k) ==
+  IF k > Len(as) THEN sy
+  ELSE StackFold(IF pop THEN SY!DoPopV(sy, st, SY!N(as[k].n), as[k].q) ELSE SY!DoPushV(sy, st, SY!N(as[k].n), as[k].q),
+                 pop, st, as, k + 1)
+
+\* ENUM / NEXTENUM: hd = the definitions the handler made, flags[k] = argument k is name=value; <<ok, en>>
+RECURSIVE EnumWalk(_, _, _, _, _, _)
+EnumWalk(en, cur, kc, flags, hd, k) ==
+  IF k > Len(hd) THEN <<TRUE, [en EXCEPT !.cur = cur, !.kc = kc /\ Len(hd) = Len(flags)]>>
+  ELSE LET o     == hd[k]
+           small == o.t = 1 /\ o.x = ""
+       IN IF ~o.chg /\ o.t = 1 /\ ((~flags[k] /\ kc /\ small) => o.v = cur)
+          THEN EnumWalk(en, IF small /\ en.ki THEN o.v + en.inc ELSE 0, small /\ en.ki, flags, hd, k + 1)
+          ELSE <<FALSE, en>>
+EnumAssignsSequentialValues(en, e, hd, quiet) ==
+  LET w == EnumWalk(en, IF e.sc = "ENUM" THEN 0 ELSE en.cur, e.sc = "ENUM" \/ en.kc, e.sa, hd, 1)
+  IN IF ~On("EnumAssignsSequentialValues") THEN <<TRUE, [en EXCEPT !.kc = FALSE]>>
+     ELSE <<Len(hd) <= Len(e.sa) /\ (quiet => Len(hd) = Len(e.sa)) /\ w[1], w[2]>>
+
+\* the handler of the statement, after the label: the set of <<sy, en>> the specification allows
+Handled(n, sy, e, quiet) ==              \* a machine step: its errors are reported, and it complains if it fails
+  IF On("SectionStackFollowsManual")
+  THEN {x \in {n} \cup (IF quiet THEN {} ELSE {sy}) : Reported(x, e.dg) /\ (x.errs > 0 => ~quiet)}
+  ELSE {n, sy}
+SyHandler(sy, en, e, hd, quiet) ==
+  CASE e.sc = "SECTION"    -> {<<x, en>> : x \in Handled(SY!DoSection(sy, e.sa[1]), sy, e, quiet)}
+    [] e.sc = "ENDSECTION" -> {<<x, en>> : x \in Handled(SY!DoEndSection(sy, e.sa[1]), sy, e, quiet)}
+    [] e.sc \in {"PUBLIC", "GLOBAL", "FORWARD"} -> {<<x, en>> : x \in Handled(PPFold(sy, e.sc, e.sa, 1), sy, e, quiet)}
+    [] e.sc \in {"PUSHV", "POPV"} ->
+         IF ~On("StackIsLifo") THEN {<<sy, en>>}
+         ELSE {<<x, en>> : x \in Handled(StackFold(sy, e.sc = "POPV", e.sa[1], e.sa[2], 1), sy, e, quiet)}
+    [] e.sc \in {"ENUM", "NEXTENUM"} ->
+         LET w == EnumAssignsSequentialValues(en, e, hd, quiet) IN IF w[1] THEN {<<sy, w[2]>>} ELSE {}
+    [] e.sc = "ENUMCONF" ->
+         {<<sy, IF quiet /\ e.sa # <<>> THEN [en EXCEPT !.inc = e.sa[1], !.ki = TRUE] ELSE [en EXCEPT !.ki = FALSE]>>}
+    [] OTHER -> {<<sy, en>>}
+
+\* "SET, :=, EVAL define variables, EQU, = constants; a definition with ENUM is equal to a definition with EQU"
+DefKindMatchesStatement(sc, hd) ==
+  Claim("DefKindMatchesStatement",
+        /\ sc = "EQU" => \A k \in 1..Len(hd) : ~hd[k].chg
+        /\ sc = "SET" => \A k \in 1..Len(hd) : hd[k].chg)
+\* outcome double <=> "symbol double defined"; mix <=> "constant redefined as variable" or the reverse
+RedefinitionIsReported(e, sc) ==
+  LET ds == Defs(e.sy) IN
+  Claim("RedefinitionIsReported",
+        /\ (\E k \in 1..Len(ds) : ds[k].out = "double") => HasDiag(e.dg, 1000)
+        /\ (\E k \in 1..Len(ds) : ds[k].out = "mix") => (HasDiag(e.dg, 2030) \/ HasDiag(e.dg, 2035))
+        /\ (sc \in {"EQU", "SET"} /\ HasDiag(e.dg, 1000)) => \E k \in 1..Len(ds) : ds[k].out = "double")
+ErrorDefinesNothing(e, sc, sy, nsy) ==
+  Claim("ErrorDefinesNothing", (sc \in {"EQU", "SET"} /\ HasErr(e.dg)) => (nsy.tab = sy.tab /\ nsy.loc = sy.loc))
+
+-----------------------------------------------------------------------------
 (* 5. cross-machine claims                                                 *)
 NoCode(e) == \A i \in 1..Len(e.ch) : e.ch[i].n = 0
 Inert(e, ab, nab) == e.ch = <<>> /\ nab = ab
 \* (statements of the macro processor - WasMACRO - are looked at even in a skipped branch: EXITM / SHIFT outside a
 \*  macro and malformed loop headers complain there too; everything else is not even decoded)
+Skipped(e, ca) == ~ca.ifasm /\ ~e.ifasm /\ e.ca = "OTHER" /\ ~e.rec
 SkippedIsInert(e, ca, ab, nab) ==
-  Claim("SkippedIsInert", (~ca.ifasm /\ ~e.ifasm /\ e.ca = "OTHER" /\ ~e.rec)
-                          => (Inert(e, ab, nab) /\ (e.wm \/ e.dg = <<>>) /\ e.sd = <<>>))
+  Claim("SkippedIsInert", Skipped(e, ca) => (Inert(e, ab, nab) /\ (e.wm \/ e.dg = <<>>)))
+\* ... and it defines nothing and modifies nothing: the symbol table, the section stack, the PUSHV stacks and ENUM's
+\* counter after the statement are those before it.  (OpFieldExpandedAnyway: Produce_Code expands a {symbol} in the
+\* opcode field before it looks at IfAsm or at the recording processor - a lookup may be recorded, it has no effect.)
+SkippedIsInertSy(e, ca, sy, nsy, en, nen) ==
+  Claim("SkippedIsInert", Skipped(e, ca) => (Writes(e.sy) = <<>> /\ nsy = sy /\ nen = en))
 \* (e.rec alone: the header that starts a recording moves nothing either; a line stored INTO a body - recording
-\*  before and after - is not looked at at all: no diagnostic, no definition)
+\*  before and after - is not looked at at all: no diagnostic, no definition; the line that closes a body is the
+\*  processor's: no definition)
 RecordedIsInert(e, ca, nca, ab, nab, recpre) ==
   Claim("RecordedIsInert", /\ e.rec => (Inert(e, ab, nab) /\ nca.ifasm = ca.ifasm /\ nca.stk = ca.stk)
-                           /\ (recpre /\ e.rec) => (e.dg = <<>> /\ e.sd = <<>>))
+                           /\ (recpre /\ e.rec) => (e.dg = <<>> /\ Writes(e.sy) = <<>>))
+RecordedIsInertSy(e, recpre, sy, nsy, en, nen) ==
+  Claim("RecordedIsInert", recpre => (Writes(e.sy) = <<>> /\ nsy = sy /\ nen = en))
 IfFamilyIsAddressNeutral(e, ab, nab) ==
   Claim("IfFamilyIsAddressNeutral",
         (e.ca \notin {"OTHER", "EXITM"}) => (NoCode(e) /\ nab.pc = ab.pc /\ nab.ph = ab.ph /\ nab.act = ab.act))
 
 \* "where definite": the line was assembled (not skipped, not recorded), it is not one of the statements whose
-\* machine says otherwise (ErrorLineMayEmit: none known), and the error belongs to the statement itself
-ErrorLineEmitsNoCode(e, ifpre, recpre) ==
-  Claim("ErrorLineEmitsNoCode", (HasErr(e.dg) /\ ifpre /\ ~recpre) => NoCode(e))
+\* machine says otherwise (ErrorLineMayEmit: none known), and the error belongs to the statement itself - not to its
+\* label: LabelHandle runs before the statement is decoded, and a label that is refused (double definition, constant /
+\* variable mixed) does not stop the instruction behind it (LabelErrorStillEmits)
+OwnErr(gs, labfailed) == \E i \in 1..Len(gs) : gs[i].num >= 1000 /\ ~(labfailed /\ gs[i].num \in {1000, 2030, 2035})
+ErrorLineEmitsNoCode(e, ifpre, recpre, labfailed) ==
+  Claim("ErrorLineEmitsNoCode", (OwnErr(e.dg, labfailed) /\ ifpre /\ ~recpre) => NoCode(e))
 
 \* Statements that take the label field as their operand (asmlabel.c LabelPresent() + IsDef() of the targets):
 \* for them the first definition of the line is not a label.
 LabelConsumers == {"=", ":=", "MACRO", "FUNCTION", "LABEL", "SET", "STRUCT", "STRUC", "EQU", "ENDSTRUCT", "ENDS",
                    "ENDSTRUC", "ENDUNION", "EVAL", "UNION", "REG", "BIT", "SFR", "PORT", "DEFBIT", "YSFR", "XSFR",
                    "SFRB", "RIV", "LIV", "DEFBITFIELD", "DEFBITB", "DBIT", "SFRBIT"}
+\* the handlers that wrap their definition in PushLocHandle(-1): global also inside a macro body
+GlobalDefOps == {"EQU", "=", "SET", ":=", "EVAL", "LABEL"}
 \* LabelSetByTarget: IsDef_XA() claims every label in the CODE segment (codexa.c places it behind the alignment
 \* padding itself); header id 3Ch = Philips XA
 LabelSetByTarget(e, ab) == e.cpu = 60 /\ ab.act = 1
@@ -339,34 +644,79 @@ LabelSetByTarget(e, ab) == e.cpu = 60 /\ ab.act = 1
 RECURSIVE SumSave(_, _)
 SumSave(stk, i) == IF i >= Len(stk) THEN 0 ELSE stk[i].savePC + SumSave(stk, i + 1)
 LabelValues(ab) == {AB!Exec(ab)} \cup (IF AB!InStruct(ab) THEN {AB!Exec(ab) + SumSave(ab.stStk, 1)} ELSE {})
-\* e.sd = <<>> or <<[v, chg, int, big]>>: the first symbol definition after the line was delivered
-LabelValueIsExec(e, ab, ifpre, recpre) ==
-  Claim("LabelValueIsExec",
-        (e.lab /\ ifpre /\ ~recpre /\ e.op \notin LabelConsumers /\ ~HasErr(e.dg) /\ e.sd # <<>>
-         /\ e.sd[1].int /\ e.sd[1].chg = 0 /\ ~e.sd[1].big /\ ~LabelSetByTarget(e, ab))
-        => e.sd[1].v \in LabelValues(ab))
+\* Produce_Code: "if ((IfAsm) && ((!IsMacro) || (!OneMacro->LocIntLabel))) if (LabelPresent()) LabelHandle(...)" -
+\* before the statement is decoded, never while a body is being recorded.  LabelValueIsExec and LabelEntersTable are
+\* evaluated on the first definition of such a line (LabelOK); it has to be there unless the line complained
+\* (invalid name ...) or is a macro call (INTLABEL hands the label to the macro).
+\* SetIsOccupied (asmdef.c): on a target that has a machine instruction SET (Z80, TLCS-90/900 ...: SET bit,operand) the
+\* statement goes to the code generator when it looks like one - it emits then, and its label field is a label
+SetIsInstruction(e) == e.op = "SET" /\ e.len > 0
+LabelExpected(e, ab, ifpre, recpre) ==
+  e.lab /\ ifpre /\ ~recpre /\ (e.op \notin LabelConsumers \/ SetIsInstruction(e)) /\ ~LabelSetByTarget(e, ab)
+ScOf(e) == IF SetIsInstruction(e) THEN "OTHER" ELSE e.sc
 
-OpenConstructsAreReported(ca, ab, gs) ==
+\* The symbol table of the listing (-L, printed after the last pass) shows the global tree as the specification holds it
+\* at the end of the last pass: every integer symbol with its section and value, and nothing of that kind besides.
+\* lst = the tokenised table [n, s (section name, "" = global), v] (integers below 2^30 only)
+FinalTableIsListed(sy, e) ==
+  LET Listed == {<<e.lst[i].n, e.lst[i].s, e.lst[i].v>> : i \in 1..Len(e.lst)}
+      Shown  == {k \in DOMAIN sy.tab : Cur(sy.tab[k])[1] = 1 /\ Cur(sy.tab[k])[3] = ""}
+      Table  == {<<k[1], SY!SectName(sy, k[2]), Cur(sy.tab[k])[2]>> : k \in Shown}
+  IN Claim("FinalTableIsListed", e.haslst => Listed = Table)
+
+OpenConstructsAreReported(ca, ab, sy, gs) ==
   Claim("OpenConstructsAreReported",
         /\ (ca.stk # <<>>) = HasDiag(gs, DG!NumMissEndif)
         /\ (ab.saveStk # <<>>) = HasDiag(gs, DG!NumNoRestoreFrame)
-        /\ (ab.stStk # <<>>) = HasDiag(gs, DG!NumOpenStruct))
+        /\ (ab.stStk # <<>>) = HasDiag(gs, DG!NumOpenStruct)
+        /\ (sy.stk # <<>>) = HasDiag(gs, 1485)                       \* ErrNum_MissingEndSect
+        /\ (DOMAIN sy.stacks # {}) = HasDiag(gs, 230))               \* ErrNum_StackNotEmpty (ClearStacks, a warning)
+\* SY in the composed step: the records of the line against the table, then the handler of the statement.  The set
+\* of <<sy, en>> the specification allows after the statement.  (Top level, few parameters: TLC looks names up in a
+\* chain.)  A line without symbol records and without a handler of the symbol table leaves both as they are.
+SySlow(s, e, tags, labexp, quiet, recpre) ==
+  LET c   == [ml |-> MomLoc(tags), ch |-> LocChain(tags), q |-> e.q,
+              gl |-> e.op \in GlobalDefOps /\ ~SetIsInstruction(e),
+              lab |-> labexp, lbn |-> e.lbn, lvals |-> LabelValues(s.ab),
+              vchk |-> quiet, struct |-> AB!InStruct(s.ab),
+              prs |-> quiet /\ e.lbn # "" /\ ~(e.wm /\ e.mc = "OTHER")]
+      p   == SymFold(s.sy, e.psy, 1, [c EXCEPT !.lab = FALSE], 0)        \* lookups made by GetNextLine (WHILE)
+      f   == SymFold(p[2], e.sy, 1, c, 0)
+      dfs == Defs(e.sy)
+      hd  == IF c.lab /\ dfs # <<>> THEN Tail(dfs) ELSE dfs
+  IN IF ~p[1] \/ ~f[1] \/ ~Claim("LabelEntersTable", (c.lab /\ c.prs) => f[3] >= 1) THEN {}
+     ELSE {y \in {<<Quiesce(x[1]), x[2]>> : x \in SyHandler(f[2], s.en, e, hd, quiet)} :
+             /\ Claim("SectionStackFollowsManual", Len(y[1].stk) = e.sed)
+             /\ DefKindMatchesStatement(ScOf(e), hd)
+             /\ RedefinitionIsReported(e, ScOf(e))
+             /\ ErrorDefinesNothing(e, ScOf(e), s.sy, y[1])
+             /\ SkippedIsInertSy(e, s.ca, s.sy, y[1], s.en, y[2])
+             /\ RecordedIsInertSy(e, recpre, s.sy, y[1], s.en, y[2])}
+SySucc(s, e, tags, labexp, quiet, recpre) ==
+  IF e.sy = <<>> /\ e.psy = <<>> /\ e.sc = "OTHER"
+  THEN (IF /\ Claim("LabelEntersTable", ~(labexp /\ quiet /\ e.lbn # "" /\ ~(e.wm /\ e.mc = "OTHER")))
+           /\ Claim("SectionStackFollowsManual", Len(s.sy.stk) = e.sed) THEN {<<s.sy, s.en>>} ELSE {})
+  ELSE SySlow(s, e, tags, labexp, quiet, recpre)
+
 -----------------------------------------------------------------------------
 (* 6. THE COMPOSED STEP: one execution of Produce_Code as a step of every  *)
-(* machine.  s = [ca, ab, mp, cw, d] (states of CondAsm, AddrBook, the     *)
-(* projected macro processor, the stream cursor, the diagnostic counters), *)
-(* e = the regrouped record of the statement (see AsCore_Trace), o = the   *)
-(* option record of Diag, rs = the parsed code file (last pass), Tx(i) =   *)
-(* text of the statement at position i.  Returns the set of states after   *)
-(* the statement that the composed specification allows - empty when the   *)
-(* record contradicts a machine or a cross-machine claim.                  *)
-StmtSucc(Tx(_), rs, o, s, e) ==
+(* machine.  s = [ca, ab, mp, cw, d, sy, en] (states of CondAsm, AddrBook, *)
+(* the projected macro processor, the stream cursor, the diagnostic        *)
+(* counters, the symbol table, ENUM's counter), e = the regrouped record   *)
+(* of the statement (see AsCore_Trace), o = the option record of Diag, rs  *)
+(* = the parsed code file (last pass), Tx(i) = text of the statement at    *)
+(* position i.  Returns the set of states after the statement that the     *)
+(* composed specification allows - empty when the record contradicts a     *)
+(* machine or a cross-machine claim.                                       *)
+StmtSuccAt(Tx(_), rs, o, s, e, pos) ==
   LET ifpre  == s.ca.ifasm
       recpre == s.mp.outs # <<>>
       quiet  == ~HasErr(e.dg)
       fd     == FoldDiags(o, s.d, e.dg, 1)
       here   == [nl |-> e.nl, tx |-> e.tx, dp |-> e.dp, em |-> e.em]
       ds     == IF IsUserOp(e, ifpre, recpre) THEN UserCands(o, fd[2], e, e.dg # <<>>) ELSE {fd[2]}
+      labexp == LabelExpected(e, s.ab, ifpre, recpre)
+      labfailed == labexp /\ Defs(e.sy) # <<>> /\ Defs(e.sy)[1].out \in {"double", "mix"}
       After(c, m, h) ==
         LET r   == Chunks(rs, h, s.cw, e.ch, 1)
             nab == BodyAdvance(r[2], e)
@@ -375,19 +725,22 @@ StmtSucc(Tx(_), rs, o, s, e) ==
               /\ SkippedIsInert(e, s.ca, s.ab, nab)
               /\ RecordedIsInert(e, s.ca, c, s.ab, nab, recpre)
               /\ IfFamilyIsAddressNeutral(e, s.ab, nab)
-              /\ ErrorLineEmitsNoCode(e, ifpre, recpre)
-              /\ LabelValueIsExec(e, s.ab, ifpre, recpre)
+              /\ ErrorLineEmitsNoCode(e, ifpre, recpre, labfailed)
            THEN {[ca |-> [c EXCEPT !.errs = 0, !.warns = 0], ab |-> nab, mp |-> m, cw |-> r[3], d |-> d2] :
                    d2 \in {x \in ds : ErrsDeltaIsDiagCount(s.d, x, e, x.err - fd[2].err)}}
            ELSE {}
       Produced(tg, c) ==
-        {m \in Produce([s.mp EXCEPT !.tags = tg], e, l, ifpre, Len(s.ca.stk), quiet) :
+        {m \in Produce([s.mp EXCEPT !.tags = tg.tags, !.lc = tg.lc], e, pos, ifpre, Len(s.ca.stk), quiet) :
            Claim("TagDepthIsMachineDepth", Len(m.tags) = e.tagd) /\ (m.outs # <<>>) = e.rec}
       Selected(tg) ==
-        {c \in CACands(s.ca, tg, e) : CAMatches(c, e) /\ MachineErrorIsReported(s.ca, c, e.dg)}
+        {c \in CACands(s.ca, tg.tags, e) : CAMatches(c, e) /\ MachineErrorIsReported(s.ca, c, e.dg)}
+      \* the other machines (small states: alternatives that coincide are merged here), then the table is attached
+      Small(tg) == UNION {UNION {UNION {After(c, m, h) : h \in AfterHandler(s.ab, e, quiet)} : m \in Produced(tg, c)}
+                          : c \in Selected(tg)}
   IN IF ~fd[1] THEN {}
-     ELSE UNION {UNION {UNION {UNION {After(c, m, h) : h \in AfterHandler(s.ab, e, quiet)}
-                               : m \in Produced(tg, c)}
-                        : c \in Selected(tg)}
-                 : tg \in Deliver(Tx, s.mp.tags, Append(e.pre, here), 1)}
+     ELSE UNION {{[ca |-> x.ca, ab |-> x.ab, mp |-> x.mp, cw |-> x.cw, d |-> x.d, sy |-> y[1], en |-> y[2]] :
+                    x \in Small(tg), y \in SySucc(s, e, tg.tags, labexp, quiet, recpre)}
+                 : tg \in Deliver(Tx, [tags |-> s.mp.tags, lc |-> s.mp.lc], Append(e.pre, here), 1)}
+\* (pos = l: the wrappers step statement by statement; AsCore_Trace also takes several statements in one step)
+StmtSucc(Tx(_), rs, o, s, e) == StmtSuccAt(Tx, rs, o, s, e, l)
 =============================================================================
